@@ -221,8 +221,8 @@ class C02(Sim):
         if len(ar) <= 1 and len(car) <= 1 and in_range and not s["eattr"]:
             out.append("from_arrays")
         if not s["eattr"]:
-            if not s["cells"]:
-                out.append("file_obj")
+            if not s["cells"] and all(a >= 0 and b >= 0 for a, b in s["edges"]):
+                out.append("file_obj")  # (a negative index in an OBJ file is a RELATIVE index, not an invalid one: not expressible there)
             if ar <= {3, 4} and car <= {4}:
                 out.append("file_medit")
             if s["cells"] and car == {4} and not s["faces"] and not s["edges"]:
